@@ -42,6 +42,9 @@ def run(ctx):
         _layout(ctx, version)
     _row_writer(ctx)
     _zinc.version_threading(ctx, 'C04.D1', 'zincdumper')
+    # the header `ver:"X"` is str(version): the version gates of a dump must not change it (shared with C18.D2)
+    from . import c18
+    c18.version_immutable(ctx, 'C04.D1')
     # date-time denotation: the zone name written is justified for that instant (clause shared with C17.D3)
     from . import c17
     c17._api(ctx, ctx.model, rule='C04.D3', only=('zincdumper',))
